@@ -85,6 +85,15 @@ def c12_scenarios(r, tier):
         a_ = "DW/pn%d" % q
         ls += [gen_line(ids5[q % 5], a_, t_, n_), "holds %s" % hx(a_)]
     out.append(("threshold-vs-peers", ls))
+    # generations for different names of one wallet started at the same moment through different initiators: each reports
+    # success and EVERY participant ends holding every one of the accounts (held, consistent, usable)
+    for rnd in range(2 if tier != "thorough" else 8):
+        ids_c = [1, 2, 3]
+        names_c = ["DW/cc%d_%d" % (rnd, q) for q in range(3)]
+        ls = [cluster_line(ids_c), "gensp %s 2 3 %s" % (hx("client1"), " ".join("%d:%s" % (ids_c[q], hx(names_c[q])) for q in range(3)))]
+        for nm_ in names_c:
+            ls += ["holds %s" % hx(nm_), "relations %s" % hx(nm_), "use %s" % hx(nm_)]
+        out.append(("concurrent-generations-%d" % rnd, ls))
     for f in ("commitpub:commit:0:2", "commitsig:commit:0:3"):
         out.append(("tampered-commit-reply " + f, [cluster_line(ids), gen_line(1, "DW/x6", 2, 3, f)]))
     # the same over the real transport (dirk's gRPC sender, mutual TLS, the receiver handlers behind the client-info interceptor)
@@ -136,7 +145,7 @@ def c13_scenarios(tier):
             faults += ["drop:prepare:0:%d" % to, "err:execute:0:%d" % to]
         for a, b in itertools.combinations(ids, 2):
             for kind in ("drop", "share", "vvecalter", "vvecshort", "vvecempty", "vvecone", "vveclong", "vveclongzero", "replyshare", "replyvvecshort",
-                         "replyvvecempty", "replyvveclong", "dupalter", "dupalter0"):
+                         "replyvvecempty", "replyvveclong", "dupalter", "dupalter0", "dup"):
                 faults.append("%s:contribute:%d:%d" % (kind, a, b))
         for f in faults:
             k += 1
@@ -239,6 +248,18 @@ def c16_scenarios(tier):
         lines = [cluster_line(idset_)] + [hline("hprepare", i, p, acct, 2, parts_) for i in parts_ if i in idset_] + \
                 [hline("hexecute", parts_[0], p, acct), "msglog", "parts %s" % ",".join(str(x) for x in parts_)]
         out.append(("skewed participants %s on %s" % (parts_, idset_), lines))
+    # two Execute requests for one account overlapping in time (the peer's is in flight — its contribution exchanges take a while
+    # — when the other arrives, and the other way round): the non-peer's is refused, the peer's is answered as if alone
+    for (inst_, order_) in ((1, "peer-first"), (2, "peer-first"), (1, "nonpeer-first")):
+        for other_ in ("client1", "signer-test04", ""):
+            k += 1
+            acct = "DW/hx%d" % k
+            p = peer_name(ids, 1)
+            a_, b_ = (p, other_) if order_ == "peer-first" else (other_, p)
+            out.append(("overlapping execute at %d %s other=%r" % (inst_, order_, other_),
+                        [cluster_line(ids)] + [hline("hprepare", i, p, acct, t, ids) for i in ids] +
+                        ["hexecute2 %d %s %s %s 240" % (inst_, hx(acct), hx(a_) if a_ else ".", hx(b_) if b_ else "."),
+                         hline("hexecute", 3, p, acct), hline("hexecute", 2 if inst_ == 1 else 1, p, acct)] + [hline("hcommit", i, p, acct) for i in ids] + ["holds %s" % hx(acct)]))
     # every lower participant's contribution handled one after the other by the highest participant, the replies examined
     # only afterwards (as the gRPC server encodes a reply after the handler has returned, while other calls are handled):
     # each reply must still carry the share of ITS caller
@@ -335,6 +356,13 @@ def c17_scenarios(r, tier):
         T.append(("restarted-generation-keeps-its-timeout-%d" % i_, [hline("hprepare", i_, p, R, t, ids), hline(how, i_, p, R), "sleep 1500", hline("hprepare", i_, p, R, t, ids),
                                                                      "sleep 2000", hline("hprepare", i_, p, R, t, ids), hline("hexecute", i_, p, R) if False else hline("hprepare", i_, p, R, t, ids),
                                                                      hline("habort", i_, p, R), hline("habort", i_, p, R)]))
+    # many names prepared and abandoned (an initiator that died after Prepare); once the timeout has passed they are all
+    # gone: any of them, and a name never seen, can be prepared again
+    for i_ in (1, 3):
+        nm_ = ["DW/lm%d_%d" % (i_, q) for q in range(12)]
+        T.append(("many-abandoned-generations-%d" % i_, [hline("hprepare", i_, p, x_, t, ids) for x_ in nm_[:11]] + ["sleep 3600"] +
+                  [hline("hprepare", i_, p, nm_[0], t, ids), hline("hprepare", i_, p, nm_[11], t, ids), hline("habort", i_, p, nm_[5]),
+                   hline("hprepare", i_, p, nm_[5], t, ids), hline("habort", i_, p, nm_[0]), hline("habort", i_, p, nm_[11])]))
     T.append(("unknown-participant", [hline("hprepare", i, p, U, 3, [1, 2, 3, 4]) for i in ids] + [hline("hexecute", 1, p, U), hline("hcommit", 1, p, U), hline("hcommit", 2, p, U),
                                       hline("hcommit", 3, p, U), "holds %s" % hx(U), hline("habort", 1, p, U), hline("habort", 2, p, U), hline("habort", 3, p, U)]))
     # prepares for one name arriving at the same moment: exactly one may be accepted (a wide participant list makes
@@ -512,6 +540,8 @@ def c14_scenarios(r, tier):
                 (i1 if which == 1 else i2).append(len(lines))
                 # attestations reach an instance through either endpoint (single, or a batch of one)
                 opn = "iatts" if d[0] == "iatt" and r.chance(0.5) else d[0]
+                if d[0] == "iatt" and which == 1 and r.chance(0.25):
+                    opn = "iattb"      # that instance's store refuses the write: nothing recorded, nothing released
                 if len(ev_) > 3:
                     opn = ev_[3]
                 if opn == "iatts" and r.chance(0.5):
